@@ -975,23 +975,14 @@ def C14(c):
             scns.append(hscn("handles_%s_rnd" % nm, pre, th, rnd(rr, c.seed * 100 + len(nm))))
     consts = {"Procs": [0, 1, 2], "Names": names}
     trace, runs, v = c.conform(scns, "ogre_handles", "Trace_OgreArc", consts)
-    # every verdict of this trace spec is an L1 rule; a mismatch means the code no longer follows the L2 counter protocol (drift)
-    for x in v["violations"]:
-        s2 = dict([s for s in scns if s["id"] == x["run"]["scn"]][0])
-        s2["explore"] = {"mode": "replay", "schedules": [x["run"]["choices"]]}
-        c.violation("%s violated by the real code (scenario %s, run %d)" % (x["inv"], x["run"]["scn"], x["run"]["run"]),
-                    {"scenario": s2, "run": x["run"], "events": extract_run(trace, x["run"]), "module": "Trace_OgreArc", "consts": {k: tla_val(q) for k, q in consts.items()}, "invariant": x["inv"]})
-    if v["mismatches"]:
-        c.drift.append("ogre_handles: %d run(s) are not behaviours of OgreArc (first unmatched event: %s)" % (len(v["mismatches"]), json.dumps(v["mismatches"][0]["event"])[:300]))
+    # every verdict of Trace_OgreArc is an L1 rule; runs that no longer follow the L2 counter protocol (drift) are re-judged by the L1-only
+    # oracle Trace_AbsHandles
+    judge_l2l1(c, scns, "ogre_handles", trace, runs, v, "Trace_OgreArc", consts, "Trace_AbsHandles", consts)
     sample_run(c, trace, runs, scns, "validated execution of the real OgreArc / OgreUnique handles")
 
     # specification -> implementation: every transition of the reference-counting state graph replayed into the real handles
     def jh(scns_, nm, trace_, runs_, v_):
-        for x in v_["violations"]:
-            s2 = dict([s for s in scns_ if s["id"] == x["run"]["scn"]][0])
-            s2["explore"] = {"mode": "replay", "schedules": [x["run"]["choices"]]}
-            c.violation("%s violated by the real code (scenario %s, run %d)" % (x["inv"], x["run"]["scn"], x["run"]["run"]),
-                        {"scenario": s2, "run": x["run"], "events": extract_run(trace_, x["run"]), "module": "Trace_OgreArc", "consts": {k: tla_val(q) for k, q in consts.items()}, "invariant": x["inv"]})
+        judge_l2l1(c, scns_, nm, trace_, runs_, v_, "Trace_OgreArc", consts, "Trace_AbsHandles", consts)
     cv1 = [[H("clone", **{"from": "a", "to": "c"}), H("drop", h="a"), H("refs", h="c"), H("drop", h="c")],
            [H("clone", **{"from": "b", "to": "d"}), H("drop", h="d"), H("drop", h="b")], [H("nop")]]
     cv2 = [[H("incr", **{"from": "a", "tos": ["c", "d"]}), H("drop", h="c"), H("drop", h="a"), H("drop", h="d")],
